@@ -39,7 +39,7 @@ pub struct Gen {
 }
 
 const WIDE: &[u32] = &[0x4E00, 0x3042, 0xFF21, 0x1F600, 0xAC00, 0x4E8C];
-const ZERO: &[u32] = &[0x0301, 0x0308, 0x20DD, 0x200B, 0x200D, 0xFE0F, 0x0483];
+const ZERO: &[u32] = &[0x0301, 0x0308, 0x20DD, 0x200B, 0x200D, 0xFE0F, 0x0483, 0xE0100];
 const ODD: &[u32] = &[0x2E3B, 0x2E3B, 0x00AD, 0x0378, 0xE000, 0x10FFFF, 0x00A0, 0x00FF, 0x0100, 0x2028, 0x1160, 0xFFFC];
 
 fn push_char(out: &mut Vec<u8>, cp: u32) {
@@ -115,7 +115,8 @@ impl Gen {
         if self.rng.chance(1, 2) {
             self.one_char(&mut out);
         }
-        let n = self.rng.range(1, 8);
+        // now and then saturate the cell (Cell::append stops at 18 live bytes)
+        let n = if self.rng.chance(1, 6) { self.rng.range(8, 14) } else { self.rng.range(1, 8) };
         for _ in 0..n {
             push_char(&mut out, *self.rng.pick(ZERO));
         }
